@@ -53,6 +53,35 @@ LOADERS = ['BaseLoader', 'SafeLoader', 'FullLoader', 'UnsafeLoader', 'CBaseLoade
 READ_OPS = ['scan', 'parse', 'compose', 'compose_all', 'load', 'load_all']
 
 
+import re as _re
+
+
+class AppLoader(yaml.SafeLoader):
+    """An application loader with a wildcard implicit resolver (first=None), a per-character one, a path resolver and a constructor."""
+
+
+AppLoader.add_implicit_resolver('!wild', _re.compile(r'^w[a-z]*$'), None)
+AppLoader.add_implicit_resolver('!ver', _re.compile(r'^[0-9]+[.][0-9]+[.][0-9]+$'), list('0123456789'))
+AppLoader.add_path_resolver('!pk', ['pk'], dict)
+AppLoader.add_constructor('!wild', lambda l, n: ['wild', l.construct_scalar(n)])
+AppLoader.add_constructor('!ver', lambda l, n: ['ver', l.construct_scalar(n)])
+AppLoader.add_constructor('!pk', lambda l, n: ['pk', l.construct_mapping(n)])
+
+
+class AppDumper(yaml.Dumper):
+    pass
+
+
+AppDumper.add_implicit_resolver('!wild', _re.compile(r'^w[a-z]*$'), None)
+AppDumper.add_multi_representer(SH.Plain, lambda d, o: d.represent_mapping('!plain', sorted(o.__dict__.items())))
+if getattr(yaml, '__with_libyaml__', False):
+    class CAppLoader(yaml.CSafeLoader):
+        pass
+    CAppLoader.add_implicit_resolver('!wild', _re.compile(r'^w[a-z]*$'), None)
+    CAppLoader.add_constructor('!wild', lambda l, n: ['wild', l.construct_scalar(n)])
+APP_TEXTS = ['- word\n- yes\n- 1.2.3\n- 12\n- ~\n- w\n', 'pk: {a: 1}\nq: wide\n', 'yes: no\n-1: 0x1F\n', 'w: [was, 2001-01-01, n, y, 1.5]\n']
+
+
 class Rec:
     pass
 
@@ -94,6 +123,12 @@ def pool():
                 if (vi + di) % 3:
                     continue
             out.append(('dump', vi, di))
+    for ai in range(len(APP_TEXTS)):
+        for op in ('load', 'compose', 'load_all'):
+            out.append(('app', ai, op, 'AppLoader'))
+            out.append(('app', ai, op, 'CAppLoader'))
+    for vi in (2, 4, 8, 14, 15):
+        out.append(('appdump', vi))
     for ti in (0, 1, 4, 5, 8, 27):
         for dn in ('Dumper', 'CDumper'):
             out.append(('reemit', ti, dn))
@@ -103,6 +138,8 @@ def pool():
 
 def have(call):
     names = [x for x in call if isinstance(x, str)]
+    if call[0] == 'app' and call[3] == 'CAppLoader':
+        return yamlapi.HAVE_C
     if call[0] == 'dump':
         names = [DUMP_VARIANTS[call[2]][0]]
     return yamlapi.HAVE_C or not any(n.startswith('C') and n[1:2].isupper() for n in names)
@@ -152,6 +189,22 @@ def start_call(call):
             for x in getattr(yaml, op)(data, Loader=L):
                 yield item_sig(op, x)
         return g2()
+    if k == 'app':
+        _, ai, op, ln = call
+        L = globals()[ln]
+        if op == 'load_all':
+            def ga():
+                for x in yaml.load_all(APP_TEXTS[ai], Loader=L):
+                    yield item_sig(op, x)
+            return ga()
+
+        def gb():
+            yield item_sig(op, getattr(yaml, op)(APP_TEXTS[ai], Loader=L))
+        return gb()
+    if k == 'appdump':
+        def gc_():
+            yield yaml.dump(make_values()[call[1]], Dumper=AppDumper)
+        return gc_()
     if k == 'dump':
         _, vi, di = call
         dn, o = DUMP_VARIANTS[di]
@@ -440,6 +493,95 @@ def norm_err(e):
     return (e[1], e[3], p)
 
 
+def emit_stream_case(r, ctx, i):
+    """Writing side of 'every document stands alone': a document is written inside a stream exactly as it is written
+    alone (same events back: tags, handles, anchors), whatever %TAG / %YAML directives or anchors its neighbours carry."""
+    from . import c12, c05
+    if i % 8 == 0:
+        # the same full tag in neighbouring documents whose %TAG tables differ (declared, declared under another handle,
+        # handle bound to another prefix, not declared at all)
+        prefix = r.choice(['tag:example.com,2000:', '!my-', 'tag:yaml.org,2002:'])
+        full = prefix + r.choice(['t1', 'str', 'x/y'])
+        tables = [None, {'!e!': prefix}, {'!f!': prefix}, {'!e!': 'tag:elsewhere.org,2000:'}, {'!e!': prefix, '!f!': 'tag:elsewhere.org,2000:'}]
+        docs = []
+        for _ in range(r.randint(2, 4)):
+            node = r.choice([[['SC', None, full, [False, False], 'v', None]], [['QS', None, full, False, None], ['SC', None, full, [False, False], 'w', None], ['QE']],
+                             [['MS', None, None, True, None], ['SC', None, full, [False, False], 'k', None], ['SC', None, None, [True, True], 'v', None], ['ME']]])
+            docs.append([['DS', True, None, r.choice(tables)]] + node + [['DE', r.random() < 0.3]])
+        ctx.stat('emit_streams_same_tag_different_tables')
+    else:
+        docs = [c12.gen_event_doc(r) for _ in range(r.randint(2, 4))]
+    for d in docs:
+        d[0][1] = True                         # explicit starts: the documents can be told apart in both texts
+    for dname in yamlapi.loaders(['Dumper', 'CDumper']):
+        case = {'emit_docs': docs, 'D': dname}
+        ctx.crumb(case)
+        try:
+            whole = list(yaml.parse(yaml.emit(EV.build([['SS']] + [e for d in docs for e in d] + [['SE']]), Dumper=getattr(yaml, dname)), Loader=yaml.Loader))
+        except yaml.YAMLError as e:
+            E = EV.build([['SS']] + [e for d in docs for e in d] + [['SE']])
+            mech = c05.classify([['SS']] + [e for d in docs for e in d] + [['SE']], {}, dname, 'Loader', None, E, None, '') if dname == 'CDumper' else None
+            alone_ok = True
+            for d in docs:
+                try:
+                    list(yaml.parse(yaml.emit(EV.build([['SS']] + d + [['SE']]), Dumper=getattr(yaml, dname)), Loader=yaml.Loader))
+                except yaml.YAMLError:
+                    alone_ok = False
+            if alone_ok:
+                ctx.violation(case, {'what': 'a stream of documents cannot be read back although every document written alone can', 'exc': yamlapi.exc_sig(e)}, mech)
+            continue
+        per, cur = [], None
+        for e in whole:
+            if isinstance(e, yaml.DocumentStartEvent):
+                cur = [sigs.ev_sig(e, explicit=False)]
+            elif isinstance(e, yaml.DocumentEndEvent):
+                per.append(cur)
+                cur = None
+            elif cur is not None:
+                cur.append(sigs.ev_sig(e, style=False))
+        ctx.stat('emit_streams_compared')
+        for k, d in enumerate(docs):
+            try:
+                alone = list(yaml.parse(yaml.emit(EV.build([['SS']] + d + [['SE']]), Dumper=getattr(yaml, dname)), Loader=yaml.Loader))
+            except yaml.YAMLError:
+                break
+            a = [sigs.ev_sig(alone[1], explicit=False)] + [sigs.ev_sig(e, style=False) for e in alone[2:-2]]
+            if k >= len(per) or per[k] != a:
+                E = EV.build([['SS']] + [e for dd in docs for e in dd] + [['SE']])
+                mech = c05.classify([['SS']] + [e for dd in docs for e in dd] + [['SE']], {}, dname, 'Loader', 'x', E, whole, '') if dname == 'CDumper' else None
+                diff = next(((x, y) for x, y in zip(per[k] if k < len(per) else [], a) if x != y), None)
+                ctx.violation(case, {'what': 'a document is written differently inside a stream than alone', 'document': k, 'first_diff': repr(diff)[:400]}, mech)
+                break
+
+
+def serialize_stream_case(r, ctx, i):
+    """serialize_all of node graphs that share node objects between documents: every document is serialized on its own
+    (its anchors and aliases refer to nothing outside it)."""
+    srcs = ['[a, b]', '{k: [1, 2]}', 'x', '&a [*a]', '[[p], [p]]', '{a: {b: c}}', '- &x [1]\n- *x', '[]']
+    nodes = [yaml.compose(r.choice(srcs)) for _ in range(r.randint(2, 4))]
+    mode = r.choice(['same_root', 'same_child', 'none'])
+    if mode == 'same_root':
+        nodes[-1] = nodes[0]
+    elif mode == 'same_child':
+        cols = [n for n in nodes if isinstance(n, yaml.CollectionNode) and n.value]
+        if len(cols) >= 2 and type(cols[0]) is type(cols[-1]):
+            cols[-1].value[0] = cols[0].value[0]
+    for dname in yamlapi.loaders(['Dumper', 'CDumper']):
+        case = {'serialize_stream': [sigs.node_sig(n) for n in nodes], 'mode': mode, 'D': dname}
+        ctx.crumb(case)
+        alone = []
+        for n in nodes:
+            alone.append(sigs.node_sig(yaml.compose(yaml.serialize(n, Dumper=getattr(yaml, dname)))))
+        try:
+            back = [sigs.node_sig(n) for n in yaml.compose_all(yaml.serialize_all(nodes, Dumper=getattr(yaml, dname)))]
+        except yaml.YAMLError as e:
+            ctx.violation(case, {'what': 'serialize_all of documents that each serialize alone cannot be read back', 'exc': yamlapi.exc_sig(e)}, None)
+            continue
+        ctx.stat('serialize_streams_compared')
+        if back != alone:
+            ctx.violation(case, {'what': 'a node graph is serialized differently inside a stream than alone', 'stream': back, 'alone': alone}, None)
+
+
 def run(spec, ctx):
     r = random.Random(core.h64('C11', spec['seed'], spec['kind'], spec['shard']))
     if spec['kind'] == 'histories':
@@ -460,6 +602,10 @@ def run(spec, ctx):
         Hooks(ctx)
         for i in range(spec['n']):
             stream_case(r, ctx, i)
+            if i % 4 == 0:
+                emit_stream_case(r, ctx, i)
+            if i % 6 == 1:
+                serialize_stream_case(r, ctx, i)
 
 
 def replay(case, ctx):
